@@ -40,10 +40,47 @@ fn check(ctx: &Ctx, st: &mut Stats, c: char, cls: u32, baseline: &str) {
     }
 }
 
+/// Classification must not depend on context: for one long test case over many symbols (no combining
+/// marks, no repetition conversion) the result is the concatenation of the one-character results.
+fn context_case(ctx: &Ctx, st: &mut Stats, w: &str, cls: u32) {
+    st.evaluations += 1;
+    let s = Settings::new(cls);
+    let tcs = [w.to_string()];
+    let whole = match build(&tcs, s) {
+        Ok(o) => o,
+        Err(p) => {
+            st.violation("panic", format!("build() panicked: {p}"), case_json(&tcs, s));
+            return;
+        }
+    };
+    let mut expected = String::from("^");
+    for c in w.chars() {
+        match ctx.classes.token(c, cls) {
+            Some(tok) => expected.push_str(tok),
+            None => {
+                let one = build(&[c.to_string()], Settings::new(0)).unwrap_or_default();
+                expected.push_str(one.strip_prefix('^').and_then(|x| x.strip_suffix('$')).unwrap_or(&one));
+            }
+        }
+    }
+    expected.push('$');
+    st.decided += 1;
+    st.count("context_cases");
+    if whole != expected {
+        let mut case = case_json(&tcs, s);
+        case["what"] = json!("context");
+        case["output"] = json!(whole);
+        case["expected"] = json!(expected);
+        st.violation("classification_depends_on_context", format!("{:?} with {:?}: grex gives {:?}, per-character classification gives {:?}", w, s.names(), whole, expected), case);
+    }
+}
+
 pub fn replay(ctx: &Ctx, case: &serde_json::Value) {
     let (tcs, s) = case_from_json(case);
     let mut st = Stats::new();
-    if let Some(c) = tcs.first().and_then(|t| t.chars().next()) {
+    if case.get("what").and_then(|w| w.as_str()) == Some("context") {
+        context_case(ctx, &mut st, &tcs[0], s.flags & CLASS_MASK);
+    } else if let Some(c) = tcs.first().and_then(|t| t.chars().next()) {
         let base = build(&tcs, Settings::new(0)).unwrap_or_default();
         check(ctx, &mut st, c, s.flags & CLASS_MASK, &base);
     }
@@ -96,6 +133,14 @@ pub fn run(ctx: &Ctx) -> i32 {
             }
         }
         st.count("scalars_x_all_subsets");
+    });
+    // context independence: long test cases over many symbols x class subsets
+    let n = if ctx.thorough { 60_000 } else { 4_000 };
+    par_for(&ctx.run, n, |i, st| {
+        let mut rng = crate::gen::Rng::new(seed, 0x90_0000 + i as u64);
+        let w = crate::gen::wide_case(&mut rng).remove(0);
+        let cls = 1 + (rng.next() as u32) % 63;
+        context_case(ctx, st, &w, cls);
     });
     {
         let mut st = Stats::new();
